@@ -180,6 +180,20 @@ def value_out(v):
     return [CLS_CODE[name], vals.pay_sx(base(v)), vals.pay_sx(raw)]
 
 
+def ptype_from_xml(t):
+    """the same parameter type obtained through the library's XML reader (ParameterType.from_xml)"""
+    import lxml.etree as ET
+    import xmlgen
+    from space_packet_parser import common
+    from space_packet_parser.xtce import definitions
+    common.NamespaceAwareElement.set_ns_prefix(None)
+    common.NamespaceAwareElement.set_nsmap({})
+    parser = ET.XMLParser()
+    parser.set_element_class_lookup(ET.ElementDefaultClassLookup(element=common.NamespaceAwareElement))
+    el = ET.fromstring(xmlgen.ptype_xml(xmlgen.W(("none",)), t), parser)
+    return definitions.TAG_NAME_TO_PARAMETER_TYPE_OBJECT[el.tag].from_xml(el)
+
+
 def decode_one(case):
     """shared impl runner: {"env", "data" (hex), "pos", "type"} -> ['ok', [value, pos]] | Err"""
     import warnings
@@ -189,7 +203,7 @@ def decode_one(case):
     def run():
         with warnings.catch_warnings():
             warnings.simplefilter("ignore")
-            t = ptype_py(case["type"])
+            t = ptype_from_xml(case["type"]) if case.get("via") == "xml" else ptype_py(case["type"])
             v = t.parse_value(pkt)
         return [value_out(v), pkt.raw_data.pos]
     return core.res_sx(core.guarded(run))
